@@ -75,7 +75,7 @@ Closed(S, f, qa) ==     \* expected trade record when this fill ends the cycle
 \* ---- the trade log at the end of the run
 TradeClauses(t, x) ==
   LET c == x.cyc
-      tag == IF x.flip # "" THEN x.flip ELSE IF x.over THEN ":oversize-ro" ELSE ""
+      tag == IF x.flip # "" THEN x.flip ELSE IF x.over THEN (IF Hdr.spot THEN ":oversize-ro-spot" ELSE ":oversize-ro") ELSE ""
   IN If(t.s = x.s, "trade-symbol" \o tag)
      \o If(t.type = x.side, "trade-type" \o tag)
      \* spot: the fee of a buy is taken from the base asset, the trade reports the quantity bought (gross), the position the net
@@ -85,19 +85,20 @@ TradeClauses(t, x) ==
      \o If(t.opened = c[1].t, "trade-opened-at" \o tag)
      \o If(t.closed = c[Len(c)].t, "trade-closed-at" \o tag)
      \o If(t.orders = x.orders, "trade-orders" \o tag)
-     \o If(Hdr.spot \/ t.pnl = CyclePnl(c, x.side, Hdr.fee_n, Hdr.fee_d), "trade-pnl" \o tag)
+     \* (spot with a fee: the trade formula is an approximation, no claim; fee-free spot is exact)
+     \o If((Hdr.spot /\ Hdr.fee_n # 0) \/ t.pnl = CyclePnl(c, x.side, Hdr.fee_n, Hdr.fee_d), "trade-pnl" \o tag)
 
 RECURSIVE AllTrades(_, _)
 AllTrades(ts, n) == IF n = 0 THEN <<>> ELSE AllTrades(ts, n - 1) \o TradeClauses(ts[n], exp[n])
 Min2(a, b) == IF a < b THEN a ELSE b
 EndClauses(e) ==
-  LET rtag == IF run.flip # "" THEN run.flip \o "-in-run" ELSE IF run.over THEN ":oversize-ro-in-run" ELSE ""
+  LET rtag == IF run.flip # "" THEN run.flip \o "-in-run" ELSE IF run.over THEN (IF Hdr.spot THEN ":oversize-ro-spot-in-run" ELSE ":oversize-ro-in-run") ELSE ""
       sum == SeqSum([i \in DOMAIN e.trades |-> e.trades[i].pnl])
       nan == \E i \in DOMAIN e.trades : e.trades[i].pnl = NanV
   IN If(Len(e.trades) = Len(exp), "trade-count" \o rtag)
      \o AllTrades(e.trades, Min2(Len(e.trades), Len(exp)))
      \o (IF nan THEN <<"trade-pnl-is-nan" \o rtag>>
-         ELSE IF Hdr.spot THEN If(~e.completed \/ \A s \in DOMAIN sym : sym[s].q = 0, "position-open-after-terminate")
+         ELSE IF Hdr.spot /\ Hdr.fee_n # 0 THEN If(~e.completed \/ \A s \in DOMAIN sym : sym[s].q = 0, "position-open-after-terminate")
          ELSE IF e.completed /\ e.has_wallet
          THEN If(\A s \in DOMAIN sym : sym[s].q = 0, "position-open-after-terminate")
               \o If(sum = e.w1 - e.w0, "sum-of-trade-pnl-vs-wallet" \o rtag)
